@@ -471,6 +471,16 @@ func (m *Matcher) match(pattern interface{}, fact interface{}, bindings Bindings
 			}
 			binding, found := bs[vv]
 			if found {
+				if s, is := binding.(string); is && m.IsVariable(s) {
+					// A bound value is data.  One that looks
+					// like a variable is compared as a constant:
+					// matching it as a pattern would look up a
+					// binding again (forever if it is its own).
+					if fs, is := fact.(string); is && fs == s {
+						return []Bindings{bs}, nil
+					}
+					return nil, nil
+				}
 				return m.match(binding, fact, bindings)
 			} else {
 				// add new binding
